@@ -36,12 +36,11 @@ def _prot_constructions(b):
 
 
 def _switch_guard(b, bb):
-    """dominating (switch_bb, truth, binop-rvalue or call) for bool switches"""
+    """[(None, truth, def)] for every boolean condition known to hold when bb executes"""
     out = []
-    for (sbb, succ, val) in U.dominating_branches(b, bb, unwind=False):
-        r = U.bool_outcome(b, sbb, val)
-        if r and r[0]:
-            out.append((sbb, r[1], r[0]))
+    for f in U.dominating_facts(b, bb):
+        if f[0] == 'bool' and f[1]:
+            out.append((None, f[2], f[1]))
     return out
 
 
@@ -189,14 +188,10 @@ def rule_intent_first(fx, col):
 
 
 def _result_arm(b, bb, res_local):
-    """'Ok' / 'Err' if block bb is dominated by a switch on discriminant(res_local)"""
-    for (sbb, succ, val) in U.dominating_branches(b, bb, unwind=False):
-        d = U.def_rvalue(b, b.term(sbb)['discr'])
-        if d and d[0] == 'rv' and d[3]['k'] == 'discr' and d[3]['place']['local'] == res_local and not d[3]['place']['proj']:
-            if val == [0]:
-                return 'Ok'
-            if val == [1]:
-                return 'Err'
+    """'Ok' / 'Err' if block bb executes only on that variant of the Result in res_local"""
+    for f in U.dominating_facts(b, bb):
+        if f[0] == 'variant' and (f[1] == res_local or (b.origins(f[1]) == b.origins(res_local) and b.origins(res_local))):
+            return 'Ok' if f[2] == 0 else 'Err' if f[2] == 1 else None
     return None
 
 
@@ -253,7 +248,7 @@ def rule_pay_before_release(fx, col):
             rels = [(bb, t) for bb, t in b.calls(include_cleanup=False) if (_is_refcnt(t, 'from_ptr', 'dec')) and b.dominates(s.bb, bb) and bb != s.bb]
             if s.op.startswith('compare_exchange'):
                 # only the success path releases the old value
-                rels = [(bb, t) for bb, t in rels if P._reached_only_on_cas_failure(b, s, bb, -1, set(range(b.n))) is False and _on_cas_success(b, s, bb)]
+                rels = [(bb, t) for bb, t in rels if _on_cas_success(b, s, bb)]
                 waits = [(bb, t) for bb, t in waits if _on_cas_success(b, s, bb)]
             col.add('PAY-BEFORE-RELEASE', '%s|%s|wait_for_readers present' % (fn, s.op), len(waits) >= 1, 'wait_for_readers calls after taking the pointer out: %s' % [b.loc(x) for x, _ in waits], s.loc)
             for (rbb, rt) in rels:
@@ -288,18 +283,25 @@ def rule_pay_before_release(fx, col):
         col.add('PAY-BEFORE-RELEASE', 'Hybrid wait_for_readers|pay_all(old, storage)', ok, 'the strategy pays all debts on exactly the pointer and cell it was given')
 
 
+def _cas_outcome_facts(b, s, facts):
+    """True (success) / False (failure) / None from a list of condition facts about CAS site s"""
+    res = s.term['dest']['local']
+    for f in facts:
+        if f[0] == 'variant' and (f[1] == res or U.local_from_call(b, f[1], s.bb)) and not _is_wrapped(b, f[1], s):
+            return f[2] == 0
+        if f[0] == 'bool' and f[1] and f[1][0] == 'call' and U.callee_name(f[1][2]) in ('is_ok', 'is_err') and ('call', s.bb) in b.origins(f[1][2]['args'][0]):
+            return f[2] == (U.callee_name(f[1][2]) == 'is_ok')
+    return None
+
+
+def _is_wrapped(b, local, s):
+    # the local must be the Result itself (or a copy/reference of it), not a value derived through another call
+    return any(o[0] == 'call' and o[1] != s.bb for o in b.origins(local))
+
+
 def _on_cas_success(b, s, bb):
     """bb is reachable only through the success outcome of CAS site s"""
-    for (sbb, succ, val) in U.dominating_branches(b, bb, unwind=False):
-        t = b.term(sbb)
-        d = U.def_rvalue(b, t['discr'])
-        if d and d[0] == 'call' and U.callee_name(d[2]) in ('is_ok', 'is_err') and ('call', s.bb) in b.origins(d[2]['args'][0]):
-            r = U.bool_outcome(b, sbb, val)
-            if r:
-                return r[1] == (U.callee_name(d[2]) == 'is_ok')
-        if d and d[0] == 'rv' and d[3]['k'] == 'discr' and d[3]['place']['local'] == s.term['dest']['local']:
-            return val == [0]
-    return False
+    return _cas_outcome_facts(b, s, U.dominating_facts(b, bb)) is True
 
 
 # --------------------------------------------------------------------------------------------
@@ -521,24 +523,34 @@ def _traverse_shape(fx, col):
     exits = []
     for x in sorted(blocks):
         for s in b.term_succs(x, unwind=False):
-            if s not in blocks:
+            if s not in blocks and b.term(s)['k'] != 'unreachable':
                 exits.append((x, s))
-    kinds = []
-    for (x, s) in exits:
-        t = b.term(x)
-        if t['k'] != 'switch':
-            kinds.append('other:%s' % t['k'])
-            continue
-        d = U.def_rvalue(b, t['discr'])
-        if d and d[0] == 'rv' and d[3]['k'] == 'discr':
-            ty = b.local_ty(d[3]['place']['local'])
-            kinds.append('end-of-list' if 'Option<&' in ty and 'Node' in ty else 'other-discr:' + ty)
-        elif d and d[0] == 'call' and U.callee_name(d[2]) == 'is_some':
-            src = b.origins(d[2]['args'][0])
-            fcall = any(o[0] == 'call' and U.callee_name(b.term(o[1])) in ('call_mut', 'call', 'call_once') for o in src)
-            kinds.append('closure-said-stop' if fcall else 'other-is_some')
-        else:
-            kinds.append('other')
+    kinds = set()
+    for (x, s2) in exits:
+        fs = U.edge_facts(b, x, s2) if b.term(x)['k'] == 'switch' else []
+        kind = 'other:%s' % b.term(x)['k']
+        for f in fs:
+            if f[0] == 'variant':
+                ty = b.local_ty(f[1])
+                from_closure = any(o[0] == 'call' and U.callee_name(b.term(o[1])) in ('call_mut', 'call', 'call_once') for o in b.origins(f[1]))
+                if from_closure and f[2] == 1:
+                    kind = 'closure-said-stop'
+                elif 'Option<&' in ty and 'Node' in ty and f[2] == 0 and not from_closure:
+                    kind = 'end-of-list'
+                else:
+                    kind = 'other-variant:%s=%s' % (ty, f[2])
+            elif f[0] == 'bool' and f[1] and f[1][0] == 'call' and U.callee_name(f[1][2]) in ('is_some', 'is_none'):
+                src = b.origins(f[1][2]['args'][0])
+                fcall = any(o[0] == 'call' and U.callee_name(b.term(o[1])) in ('call_mut', 'call', 'call_once') for o in src)
+                said_some = f[2] == (U.callee_name(f[1][2]) == 'is_some')
+                if fcall and said_some:
+                    kind = 'closure-said-stop'
+                elif not fcall and not said_some:
+                    kind = 'end-of-list'
+                else:
+                    kind = 'other-test'
+        kinds.add(kind)
+    kinds = sorted(kinds)
     col.add('COVER-ALL', 'Node::traverse|exits', sorted(kinds) == ['closure-said-stop', 'end-of-list'], 'the node walk leaves its loop only by: %s' % sorted(kinds))
     # every node is handed to the closure: the closure call is guarded only by current == Some
     calls = [(bb, t) for bb, t in P._loop_calls(b, blocks) if U.callee_name(t) in ('call_mut', 'call', 'call_once')]
